@@ -7,6 +7,7 @@ from typing import Any, Dict, List, Tuple
 from pacti import iocontract
 from pacti.contracts import PolyhedralIoContract, PolyhedralIoContractCompound
 from pacti.terms import polyhedra
+from pacti.utils.errors import ContractFormatError
 
 
 def read_contracts_from_file(  # noqa: WPS231 too much cognitive complexity
@@ -29,10 +30,16 @@ def read_contracts_from_file(  # noqa: WPS231 too much cognitive complexity
     with open(file_name) as f:
         file_data = json.load(f)
     # make sure that data is an array of dictionaries
-    assert isinstance(file_data, list)
+    if not isinstance(file_data, list):
+        raise ContractFormatError("A contract file should contain a list of entries")
     for entry in file_data:
-        assert isinstance(entry, dict)
-        assert "type" in entry
+        if not isinstance(entry, dict):
+            raise ContractFormatError("Each entry of a contract file should be a dictionary")
+        for kw in ("type", "name", "data"):
+            if kw not in entry:
+                raise ContractFormatError(f'Keyword "{kw}" not found in file entry')
+        if not isinstance(entry["name"], str):
+            raise ContractFormatError("The name of a contract should be a string")
     # we load each contract according to the type
     contracts: List[Any] = []
     names = []
